@@ -39,6 +39,12 @@ _SAFE_UNARY_OPS = {
 }
 
 
+# Deepest AST nesting that is evaluated. Hand-written conditions are a handful of
+# levels deep; the bound keeps evaluation well inside the interpreter's recursion
+# limit so that a pathological condition fails with ExpressionError, not RecursionError.
+_MAX_DEPTH = 200
+
+
 class ExpressionError(Exception):
     """Raised when an expression cannot be evaluated."""
 
@@ -70,6 +76,8 @@ def evaluate_expression(expression: str, context: dict[str, Any]) -> Any:
     Raises:
         ExpressionError: If the expression is invalid or uses unsupported features
     """
+    if expression and not isinstance(expression, str):
+        raise ExpressionError(f"Expression must be a string, got {type(expression).__name__}")
     if not expression or not expression.strip():
         raise ExpressionError("Empty expression")
 
@@ -85,12 +93,22 @@ def evaluate_expression(expression: str, context: dict[str, Any]) -> Any:
         tree = ast.parse(expr, mode="eval")
     except SyntaxError as e:
         raise ExpressionError(f"Invalid expression syntax: {e}") from e
+    except (ValueError, RecursionError, MemoryError) as e:
+        # e.g. lone surrogates (UnicodeEncodeError) or nesting too deep for the parser
+        raise ExpressionError(f"Expression cannot be parsed: {type(e).__name__}: {e}") from e
 
-    return _eval_node(tree.body, context)
+    try:
+        return _eval_node(tree.body, context)
+    except RecursionError as e:
+        raise ExpressionError("Expression is nested too deeply") from e
 
 
-def _eval_node(node: ast.AST, context: dict[str, Any]) -> Any:
+def _eval_node(node: ast.AST, context: dict[str, Any], depth: int = 0) -> Any:
     """Recursively evaluate an AST node."""
+    if depth > _MAX_DEPTH:
+        raise ExpressionError(f"Expression is nested too deeply (more than {_MAX_DEPTH} levels)")
+    depth += 1  # depth of this node's children
+
     if isinstance(node, ast.Constant):
         return node.value
 
@@ -106,19 +124,22 @@ def _eval_node(node: ast.AST, context: dict[str, Any]) -> Any:
         return None  # Missing context keys evaluate to None
 
     if isinstance(node, ast.Attribute):
-        value = _eval_node(node.value, context)
+        value = _eval_node(node.value, context, depth)
         if isinstance(value, dict):
             return value.get(node.attr)
         return None
 
     if isinstance(node, ast.Subscript):
-        value = _eval_node(node.value, context)
+        value = _eval_node(node.value, context, depth)
         if isinstance(node.slice, ast.Constant):
             key = node.slice.value
         else:
-            key = _eval_node(node.slice, context)
+            key = _eval_node(node.slice, context, depth)
         if isinstance(value, dict):
-            return value.get(key)
+            try:
+                return value.get(key)
+            except TypeError as e:  # unhashable key
+                raise ExpressionError(f"Cannot use {type(key).__name__} as a mapping key: {e}") from e
         if isinstance(value, (list, tuple)) and isinstance(key, int):
             try:
                 return value[key]
@@ -127,9 +148,9 @@ def _eval_node(node: ast.AST, context: dict[str, Any]) -> Any:
         return None
 
     if isinstance(node, ast.Compare):
-        left = _eval_node(node.left, context)
+        left = _eval_node(node.left, context, depth)
         for op, comparator in zip(node.ops, node.comparators):
-            right = _eval_node(comparator, context)
+            right = _eval_node(comparator, context, depth)
             op_func = _SAFE_OPERATORS.get(type(op))
             if op_func is None:
                 raise ExpressionError(f"Unsupported comparison operator: {type(op).__name__}")
@@ -144,29 +165,32 @@ def _eval_node(node: ast.AST, context: dict[str, Any]) -> Any:
         return True
 
     if isinstance(node, ast.BoolOp):
-        values = [_eval_node(v, context) for v in node.values]
+        values = [_eval_node(v, context, depth) for v in node.values]
         func = _SAFE_BOOL_OPS.get(type(node.op))
         if func is None:
             raise ExpressionError(f"Unsupported boolean operator: {type(node.op).__name__}")
         return func(values)
 
     if isinstance(node, ast.UnaryOp):
-        operand = _eval_node(node.operand, context)
+        operand = _eval_node(node.operand, context, depth)
         unary_func = _SAFE_UNARY_OPS.get(type(node.op))
         if unary_func is None:
             raise ExpressionError(f"Unsupported unary operator: {type(node.op).__name__}")
-        return unary_func(operand)
+        try:
+            return unary_func(operand)
+        except TypeError as e:
+            raise ExpressionError(f"Cannot apply {type(node.op).__name__} to {type(operand).__name__}: {e}") from e
 
     if isinstance(node, ast.IfExp):
-        test = _eval_node(node.test, context)
+        test = _eval_node(node.test, context, depth)
         if test:
-            return _eval_node(node.body, context)
-        return _eval_node(node.orelse, context)
+            return _eval_node(node.body, context, depth)
+        return _eval_node(node.orelse, context, depth)
 
     if isinstance(node, ast.List):
-        return [_eval_node(elt, context) for elt in node.elts]
+        return [_eval_node(elt, context, depth) for elt in node.elts]
 
     if isinstance(node, ast.Tuple):
-        return tuple(_eval_node(elt, context) for elt in node.elts)
+        return tuple(_eval_node(elt, context, depth) for elt in node.elts)
 
     raise ExpressionError(f"Unsupported expression node: {type(node).__name__}")
